@@ -63,6 +63,11 @@ func Dot(spec *Spec, w io.WriteCloser, fromNode, toNode string) error {
 	// Use copies of states that don't have Name set.
 	nodes := make(map[string]*Node, len(spec.Nodes))
 	for name, n := range spec.Nodes {
+		if n == nil {
+			// A node without any content, which Compile
+			// will replace with an empty Node.
+			n = &Node{}
+		}
 		nodes[name] = n
 	}
 
